@@ -715,6 +715,11 @@ def catalogue(ctx, d, datadir):
         scenario("datafile-missing-after-16k", [("b", src, "fail", (True, src, mfiles(big), None))], None, keep)
         # --- several inputs on one command line, one of them suffering
         scenario("multi-input-missing", [("a", S, ) + okS, ("m", None, "fail", (True, None, {}, None)), ("c", S, ) + okS], None, keep)
+        # the exit status is a status, not a count: 256 (and 512) failing inputs still exit non-zero
+        if keep:
+            scenario("multi-256-inputs-missing", [("m%03d" % i, None, "fail", (True, None, {}, None)) for i in range(256)], None, keep)
+            scenario("multi-512-inputs-missing-one-good", [("m%03d" % i, None, "fail", (True, None, {}, None)) for i in range(300)]
+                     + [("a", S, ) + okS] + [("n%03d" % i, None, "fail", (True, None, {}, None)) for i in range(212)], None, keep)
         scenario("multi-create-fails", [("a", S, ) + okS, ("m", S, "fail", (False, S, {}, None)), ("c", S, ) + okS],
                  lambda od: os.makedirs(os.path.join(od, "m.pcap")), keep)
         scenario("multi-dev-full", [("a", S, ) + okS, ("m", B, "fail", (True, B, mfiles(big), 0)), ("c", S, ) + okS],
